@@ -28,6 +28,13 @@ R_w3N  == SeqsUpTo(V2N, 3)               \* 40 records
 R_2x2  == [1..2 -> V2]                   \* rectangular, width 2
 R_2x2N == [1..2 -> V2N]
 R_none == {}
+\* wide records: multi-digit field indices (a10, a[11]) must not be confused with a1
+R_wide == {[k \in 1..11 |-> Str(<<96 + k>>)], [k \in 1..10 |-> Str(<<107 - k>>)]}
+\* None and the empty string are different cells
+V3E   == {S(97), Str(<<>>), None}
+R_2x2E == [1..2 -> V3E]
+\* one record, repeated: tables of up to 12 records for two-digit TOP / LIMIT values
+R_one == {<<S(97), S(98)>>}
 R_w1   == [1..1 -> V2]
 R_w3   == [1..3 -> V2]
 R_q4   == {<<S(97)>>, <<S(97), S(97)>>, <<S(97), S(98)>>, <<S(98), S(97)>>}     \* quick tier: 4 records incl. a short one
@@ -63,6 +70,10 @@ Q_C04selQ == {[BaseQ EXCEPT !.items = <<it>>, !.where = w, !.join = j, !.jkeys =
 Q_C04pairs == {[BaseQ EXCEPT !.items = <<i1, i2>>, !.join = j, !.jkeys = << <<1, 1>> >>] :
                 i1 \in {E(Fa(1)), <<"astar">>, <<"unnest", <<"flds", <<1, 2>>>>>>}, i2 \in {E(Fb(2)), <<"bstar">>, E(<<"bNR">>)}, j \in {"inner", "left"}}
 
+Q_C01wide == {[BaseQ EXCEPT !.items = its, !.where = w] :
+                its \in {<<E(Fa(10))>>, <<E(Fa(1)), E(Fa(11))>>, <<E(Fa(11)), E(Fa(1))>>, <<E(<<"cat", Fa(1), Fa(10)>>), E(Fa(2))>>, <<E(Fa(12)), E(Fa(10))>>, <<E(Fa(2)), <<"unnest", <<"flds", <<10, 1>>>>>> >>},
+                w \in {TRUEx, <<"eq", Fa(10), L(106)>>, <<"ne", Fa(1), Fa(10)>>}}
+Q_C01widex == {[BaseQ EXCEPT !.hasexc = TRUE, !.exc = ex] : ex \in {<<10>>, <<1, 10>>, <<11, 2>>}}
 Q_C01join == {[BaseQ EXCEPT !.items = <<it>>, !.where = w, !.join = j, !.jkeys = << <<1, 1>> >>] :
                 it \in ItemsJoin, w \in {TRUEx, <<"isnone", Fb(1)>>}, j \in {"inner", "left"}}
 
@@ -85,6 +96,11 @@ Q_C02live == {[BaseQ EXCEPT !.items = its, !.where = w, !.hastop = TRUE, !.top =
 \* tables on which every such WHERE passes at least once per cycle
 R_live == {<<S(97), S(98)>>, <<S(97), S(97)>>}
 
+\* two-digit bounds over a table of up to 12 records
+Q_C02big == {[BaseQ EXCEPT !.items = <<E(NRx), E(Fa(1))>>, !.hastop = TRUE, !.top = t, !.order = o, !.desc = d] : t \in {9, 10, 11}, o \in {<<>>, <<NRx>>}, d \in BOOLEAN}
+Q_C02bigok == {qq \in Q_C02big : qq.order = <<>> => ~qq.desc}
+\* DISTINCT must tell None from the empty string
+Q_C02none == {[BaseQ EXCEPT !.items = its, !.distinct = di] : its \in {<<E(Fa(1))>>, <<E(Fa(1)), E(Fa(2))>>}, di \in {"uniq", "count"}}
 Q_C02join == {[BaseQ EXCEPT !.items = <<E(Fa(1)), E(Fb(2))>>, !.join = "inner", !.jkeys = << <<1, 1>> >>,
                            !.order = o, !.desc = d, !.distinct = di, !.hastop = ht, !.top = t] :
                 o \in {<<>>, <<Fa(1)>>, <<Fb(2)>>}, d \in BOOLEAN, di \in {"none", "uniq", "count"}, ht \in BOOLEAN, t \in 0..3}
@@ -163,7 +179,9 @@ Q_C15 == {[BaseQ EXCEPT !.items = <<E(Fa(1)), E(NRx)>>],
           [BaseQ EXCEPT !.kind = "update", !.assign = << <<1, L(120)>> >>],
           [BaseQ EXCEPT !.items = <<E(Fa(1)), E(Fb(2))>>, !.join = "inner", !.jkeys = << <<1, 1>> >>],
           [BaseQ EXCEPT !.items = <<E(Fb(2))>>, !.join = "left", !.jkeys = << <<1, 1>> >>, !.distinct = "uniq"],
-          [BaseQ EXCEPT !.items = << <<"agg", "COUNT", <<"int", 1>> >>, E(Fa(1)) >>, !.hasgroup = TRUE, !.group = <<Fa(1)>>]}
+          [BaseQ EXCEPT !.items = << <<"agg", "COUNT", <<"int", 1>> >>, E(Fa(1)) >>, !.hasgroup = TRUE, !.group = <<Fa(1)>>],
+          [BaseQ EXCEPT !.items = << <<"agg", "COUNT", <<"int", 1>> >> >>, !.where = <<"eq", Fa(1), L(122)>>],
+          [BaseQ EXCEPT !.items = <<E(Fa(1))>>, !.where = <<"eq", Fa(1), L(122)>>, !.order = <<Fa(1)>>, !.distinct = "count"]}
 
 \* ---------------------------------------------------------------- C14: poisoned expressions, first offending record
 V2P  == {S(97), S(112)}
@@ -187,6 +205,8 @@ Q_C14 == {[BaseQ EXCEPT !.items = <<E(P(Fa(1))), E(NRx)>>],
 Q_C14rag == {qq \in Q_C14 : (\A k \in 1..Len(qq.order) : qq.order[k] # Fa(2) /\ qq.order[k] # P(Fa(2))) /\ (\A k \in 1..Len(qq.items) : qq.items[k][1] # "agg" \/ qq.items[k][2] # "MAX")}
 \* for the JavaScript port: without the query whose failure is Python's None + str TypeError (null + "x" is "nullx" in JS)
 Q_C14js == {qq \in Q_C14 : qq.items # <<E(<<"cat", Fa(1), Fa(3)>>)>>}
+\* full scans of ragged tables (incl. the empty record) for the field-count warning
+Q_C14plain == {[BaseQ EXCEPT !.items = <<E(Fa(1)), E(NRx)>>], [BaseQ EXCEPT !.items = << <<"star">> >>], [BaseQ EXCEPT !.items = <<E(NFx)>>, !.where = <<"nrodd">>]}
 Q_C14text == {[BaseQ EXCEPT !.items = <<E(Fa(1))>>, !.where = <<"eq", Fa(1), L(97)>>, !.mistake = "where_assign"],
               [BaseQ EXCEPT !.items = <<E(Fa(1))>>, !.mistake = "two_selects"],
               [BaseQ EXCEPT !.items = <<E(Fa(1))>>, !.hastop = TRUE, !.top = 1, !.mistake = "bad_limit"],
